@@ -16,6 +16,20 @@ for _f in sorted(os.listdir(_d)):
             import sys
             print(f"registry: skipping {_f}: {_e}", file=sys.stderr)
 
+# coverage extensions (lib/ext/CXn.py): runnable as `bin/vcheck CXn`, never claimed, no evidence
+EXT = {}
+_e = os.path.join(os.path.dirname(os.path.abspath(__file__)), "ext")
+for _f in sorted(os.listdir(_e)):
+    if _f.endswith(".py") and _f.startswith("CX"):
+        try:
+            _spec = importlib.util.spec_from_file_location("ext_" + _f[:-3], os.path.join(_e, _f))
+            _m = importlib.util.module_from_spec(_spec)
+            _spec.loader.exec_module(_m)
+            EXT[_f[:-3]] = _m.PROP
+        except Exception as _x:
+            import sys
+            print(f"registry: skipping ext {_f}: {_x}", file=sys.stderr)
+
 HOOKS = dict(
     guard="verif",
     enable="go test -tags verif -overlay <generated overlay.json> (harness files are injected from /verif/harness; hook bodies compile only with -tags verif)",
